@@ -51,6 +51,52 @@ fn run_engine(path: &str, args: &[&str], envs: &[(&str, &str)], label: &str) -> 
 pub const LOOM_REL: &str = "/verif/.target/loomh/release/c08loom";
 pub const LOOM_DBG: &str = "/verif/.target/loomh/dbg/c08loom";
 pub const RAYON_REL: &str = "/verif/.target/rayonh/release/c08rayon";
+pub const RAYON_TSAN: &str = "/verif/.target/rayonh-tsan/x86_64-unknown-linux-gnu/release/c08rayon";
+
+/// Auxiliary pass: the real-rayon bodies built with ThreadSanitizer, free-running. A cooperative
+/// scheduler's hand-offs are happens-before edges that would blind a race detector, so this runs
+/// on real OS threads. A reported race is a real unsynchronised access; it is attached to the
+/// evidence as a violation labelled `tsan` (it is not the deciding exploration).
+fn run_tsan(tier: &str) -> Report {
+    let mut rep = Report::default();
+    if !std::path::Path::new(RAYON_TSAN).exists() {
+        eprintln!("[C08] ThreadSanitizer build not available: auxiliary pass skipped");
+        rep.notes.insert("tsan auxiliary pass skipped (binary not built)".into(), 1);
+        return rep;
+    }
+    let t0 = std::time::Instant::now();
+    let out = Command::new(RAYON_TSAN).arg(tier).env("C08_TSAN", "1").env("TSAN_OPTIONS", "halt_on_error=1 exitcode=66 report_signal_unsafe=0").output();
+    match out {
+        Ok(o) => {
+            let err = String::from_utf8_lossy(&o.stderr).to_string();
+            if o.status.code() == Some(66) || err.contains("WARNING: ThreadSanitizer") {
+                let excerpt: Vec<&str> = err.lines().filter(|l| l.contains("ThreadSanitizer") || l.contains("fast_image_resize") || l.contains("#0") || l.contains("#1") || l.contains("#2")).take(24).collect();
+                let site = err.lines().find(|l| l.contains("fast_image_resize::")).map(|l| l.trim().split(" in ").nth(1).unwrap_or(l).split(' ').next().unwrap_or("").to_string()).unwrap_or_default();
+                let sig = format!("C08|tsan|data race reported by ThreadSanitizer|{}", site);
+                rep.sig_counts.insert(sig.clone(), 1);
+                rep.viols.push(Viol { space: "engine:tsan".into(), idx: 0, sig, detail: json!({"auxiliary": true, "report": excerpt}) });
+            } else if let Some(Ok(v)) = String::from_utf8_lossy(&o.stdout).lines().rev().find(|l| l.starts_with('{')).map(serde_json::from_str::<Value>) {
+                let r = report_from_json(&v);
+                rep.notes.insert("tsan auxiliary pass: runs without a race report".into(), r.ops);
+                if let Some(a) = v["spaces"].as_array() {
+                    rep.spaces = a.clone();
+                }
+                // violations of the comparison itself (not races) are real-rayon findings too
+                rep.viols = r.viols;
+                rep.sig_counts = r.sig_counts;
+            } else {
+                eprintln!("MACHINERY-ERROR tsan pass: exit {:?}", o.status);
+                rep.notes.insert("machinery_errors".into(), 1);
+            }
+        }
+        Err(e) => {
+            eprintln!("[C08] cannot run the ThreadSanitizer binary: {}", e);
+            rep.notes.insert("tsan auxiliary pass skipped (binary not runnable)".into(), 1);
+        }
+    }
+    eprintln!("[C08] engine {:<28} {:.1}s", "tsan (auxiliary)", t0.elapsed().as_secs_f64());
+    rep
+}
 
 pub fn prop(tier: Tier, _seed: u64) -> Prop {
     let mut p = Prop::new("C08");
@@ -58,6 +104,7 @@ pub fn prop(tier: Tier, _seed: u64) -> Prop {
     p.extra.push(Box::new(move |_| run_engine(LOOM_REL, &[t], &[], "loom+serial (release)")));
     p.extra.push(Box::new(move |_| run_engine(LOOM_DBG, &[t], &[], "serial (debug assertions)")));
     p.extra.push(Box::new(move |_| run_engine(RAYON_REL, &[t], &[], "real rayon")));
+    p.extra.push(Box::new(move |_| run_tsan(t)));
     p.replay_fn = Some(Box::new(|detail: &Value| {
         let mut out = vec![];
         let bin = if detail["profile"] == "dbg" { LOOM_DBG } else { LOOM_REL };
